@@ -31,6 +31,21 @@ Definition enc_cres (r : cres) : list (list Z) :=
 Definition enc_tokens (ts : list token) : list Z :=
   flat_map (fun t => [Z.of_N (ttype_num (t_typ t)); Z.of_nat (length (t_val t))] ++ of_text (t_val t)) ts.
 
+Fixpoint pass_work (cfg : config) (n : nat) (toks : list token) (acc : Z) : Z :=
+  let acc' := (acc + Z.of_nat (length toks))%Z in
+  match n with
+  | O => acc
+  | S n' =>
+    match scan_input toks with
+    | Some (Some (syms, true)) =>
+      match for_expand toks (with_constants cfg syms) with
+      | Some (Some r) => pass_work cfg n' (fr_tokens r) acc'
+      | _ => acc'
+      end
+    | _ => acc'
+    end
+  end.
+
 Definition run_asm (kind : Z) (l : list Z) : list (list Z) :=
   match kind with
   | 10 => match rd_cfg l with
@@ -64,6 +79,17 @@ Definition run_asm (kind : Z) (l : list Z) : list (list Z) :=
                        | None => [[99]]
                        end
           | None => [[99]]
+          end
+  | 23 => (* harness support: the work of the FOR pass driver on a text - the sum over the passes of the
+             number of tokens handed to a pass - used to tell inputs whose FOR counts go beyond the bound
+             the time clause of C05 quantifies over *)
+          match rd_cfg l with
+          | Some (cfg, t) =>
+            match lex_ascii (to_text t) with
+            | Some ts => [[83; pass_work cfg (S max_for_passes) ts 0]]
+            | None => [[99]]
+            end
+          | None => [[0]]
           end
   | 22 => match lex_ascii (to_text l) with
           | Some ts => match evaluate_expression (removelast ts) with
